@@ -63,7 +63,10 @@ static inline void recp(int t, uint64_t v) { if (npushed[t] < VF_MAXR) pv[t][npu
 #define SIGNAL(i) __atomic_store_n(&flag[i], 1, __ATOMIC_RELEASE)
 #define AWAIT(i) vf_assume(__atomic_load_n(&flag[i], __ATOMIC_ACQUIRE) == 1)
 #define BODY(n) extern "C" void vf_thread_##n() { constexpr int T = n; (void)T; VF_T##n; }
-extern "C" void vf_init() { q = new Q(VF_CAP); }
+#ifndef VF_QINIT
+#define VF_QINIT (void)0
+#endif
+extern "C" void vf_init() { q = new Q(VF_CAP); VF_QINIT; }
 #ifdef VF_T0
 BODY(0)
 #endif
